@@ -73,6 +73,9 @@ impl PartialEq for Value {
                         true
                     }
                 }
+                // keep `==` symmetric: an argument list equals the unbracketed
+                // comma-separated list with the same elements
+                Value::ArgList(..) => other == self,
                 _ => false,
             },
             Value::Null => matches!(other, Value::Null),
@@ -101,7 +104,7 @@ impl PartialEq for Value {
             }
             Value::ArgList(list1) => match other {
                 Value::ArgList(list2) => list1 == list2,
-                Value::List(list2, ListSeparator::Comma, ..) => {
+                Value::List(list2, ListSeparator::Comma, Brackets::None) => {
                     if list1.len() != list2.len() {
                         return false;
                     }
@@ -421,6 +424,7 @@ impl Value {
                         false
                     }
                 }
+                Value::ArgList(..) => other != self,
                 _ => true,
             },
             s => s != other,
